@@ -79,7 +79,9 @@ Section Report.
   Definition leaf_depths : list Z :=
     map (fun fa => zlen (snd fa)) (filter (fun fa => feat_is_leaf (fst fa)) (ancestors_table m)).
   (* leaf depths in get_features order: the multiset is what max/mean/median use *)
-  Definition group_names := map name (filter feat_is_group feats).
+  (* FMMetrics._is_group_feature *)
+  Definition is_group_feature (f : feature) : bool := feat_is_group f || feat_is_cardinality_group f.
+  Definition group_names := map name (filter is_group_feature feats).
   Definition solitary_names :=
     map (fun x => name (snd x))
         (filter (fun x => negb (feat_is_root (fst x)) && negb (feat_is_grouped (fst x) (snd x))) fctx).
